@@ -92,6 +92,24 @@ CancelIsRollback(s, s2, w, t) ==
   /\ wr2.ctxs = wr.ctxs
 CancelRefusedUnchanged(s, s2, w) == s2.w[w] = s.w[w]
 
+\* ---- C06 --------------------------------------------------------------
+LiveOf(s, w) == {t \in DOMAIN s.w[w].txs : s.w[w].txs[t].ty \in {"TxSent", "TxReceived"} /\ ~s.w[w].txs[t].conf}
+LinkedOuts(s, w, t, sts) ==
+  {k \in DOMAIN s.w[w].outs : s.w[w].outs[k].tx = s.w[w].txs[t].id /\ s.w[w].outs[k].acct = s.w[w].txs[t].acct
+                                /\ s.w[w].outs[k].st \in sts}
+\* every reserved output belongs to a live logged transaction; every live sent
+\* transaction has all the inputs and change outputs its entry counts: the reservation
+\* step happened entirely or not at all
+CrashConsistent(s, w) ==
+  /\ \A k \in DOMAIN s.w[w].outs : s.w[w].outs[k].st = "Locked" =>
+        \E t \in LiveOf(s, w) : s.w[w].txs[t].ty = "TxSent" /\ s.w[w].txs[t].id = s.w[w].outs[k].tx
+                                  /\ s.w[w].txs[t].acct = s.w[w].outs[k].acct
+  /\ \A t \in LiveOf(s, w) : s.w[w].txs[t].ty = "TxSent" =>
+        /\ Cardinality(LinkedOuts(s, w, t, {"Locked", "Spent"})) >= s.w[w].txs[t].nin
+        /\ Cardinality(LinkedOuts(s, w, t, {"Unconfirmed", "Unspent"})) >= s.w[w].txs[t].nout
+  /\ \A k \in DOMAIN s.w[w].outs : (s.w[w].outs[k].st = "Unconfirmed" /\ ~s.w[w].outs[k].cb) =>
+        TxKeyOf(s.w[w].outs[k].acct, s.w[w].outs[k].tx) \in DOMAIN s.w[w].txs
+
 \* ---- C15 --------------------------------------------------------------
 \* a key handed out for a new output was never handed out before
 PathFresh(hv, w, key) == key \notin hv.issued[w]
